@@ -3,7 +3,7 @@
    Go runtime owns below that (memory model, word tearing, the concurrent-map fault) is covered only through the
    lockset theorem over the access table regenerated from inmemory.go on every run. *)
 From Coq Require Import ZArith List Bool String NArith.
-From Burrow Require Import Int64 Eval AMap Ring Storage Lockset LocksetProofs StorageConc StorageConcProofs.
+From Burrow Require Import Int64 Eval AMap Ring Storage Lockset LocksetProofs StorageConc StorageConcProofs StorageConcLin.
 From BurrowGen Require Import LocksetTable RouterTable.
 Import ListNotations.
 Open Scope list_scope.
@@ -39,6 +39,30 @@ Theorem lockset_old_discipline_race_refuted :
             race (fun _ => true) old_rows (fun _ => 1%Z) (fun _ => O) h.
 Proof. exact old_discipline_race_proof. Qed.
 Print Assumptions lockset_old_discipline_race_refuted.
+
+(* what a table that passes says about replies and blocking: (1) the only references into shared storage that ever reach a
+   reply / a channel / foreign code are *protocol.Lag pointers; (2) no handler writes a Lag value reachable from storage
+   (the synthetic reply-reader row, which holds no lock, would conflict); (3) no channel operation happens under a lock *)
+Theorem lockset_reply_alias_free_generic :
+  forall keyed tbl,
+    race_free keyed tbl = true -> existsb is_reply_reader tbl = true ->
+    (forall r ty, In r tbl -> r_class r = CEscape ty -> ty = "*protocol.Lag"%string) /\
+    (forall r, In r tbl -> r_class r = CLagValue -> r_rw r = R) /\
+    (forall r what, In r tbl -> r_class r <> CBlocking what).
+Proof. exact reply_alias_free_proof. Qed.
+Print Assumptions lockset_reply_alias_free_generic.
+
+(* per run: the regenerated table contains the reply-reader row, so the three clauses hold of it *)
+Theorem lockset_reply_alias_free :
+  existsb is_reply_reader table = true /\
+  (forall r ty, In r table -> r_class r = CEscape ty -> ty = "*protocol.Lag"%string) /\
+  (forall r, In r table -> r_class r = CLagValue -> r_rw r = R) /\
+  (forall r what, In r table -> r_class r <> CBlocking what).
+Proof.
+  assert (H : existsb is_reply_reader table = true) by (vm_compute; reflexivity).
+  split; [exact H|]. apply (reply_alias_free_proof (handler_keyed routes handlers) table); [vm_compute; reflexivity | exact H].
+Qed.
+Print Assumptions lockset_reply_alias_free.
 
 (* ============================================================================================== *)
 (* deadlock freedom from the lock order of the table                                               *)
@@ -94,13 +118,25 @@ Print Assumptions router_matches_model.
 (* ============================================================================================== *)
 
 (* no crash: from any storage state, for every assignment of requests to workers the router can produce (same
-   (cluster, group) => same queue) with well-formed broker requests (0 <= partition < count), and every schedule *)
+   (cluster, group) => same queue) with well-formed broker requests (0 <= partition < count), and every schedule.
+   The hypothesis 1 <= intervals: with intervals = 0 (which Configure accepts) ring.New(0) is nil and the first broker offset
+   panics - the model crashes there too (conc_no_crash_needs_intervals below; corpus/C08 last case replays it on the real
+   code).  Who discharges it: the configuration layer - C19 / builder "config" decides whether Configure must refuse
+   intervals < 1; the sequential theorems of C01/C02 carry the same hypothesis. *)
 Theorem conc_no_crash :
   forall cf now st queues prios sched,
+    (1 <= cf_intervals cf)%nat ->
     wf_queues queues ->
     g_crashed (fst (sched_run cf now true (init_g st queues prios) sched)) = false.
-Proof. exact conc_no_crash_proof. Qed.
+Proof. intros cf now st queues prios sched HN. exact (conc_no_crash_proof cf now HN st queues prios sched). Qed.
 Print Assumptions conc_no_crash.
+
+(* the hypothesis is needed: one well-formed broker request, intervals = 0 => crash (model = real code) *)
+Example conc_no_crash_needs_intervals :
+  wf_queues [[SetBrokerOffset 1 1 0 1 50]] /\
+  g_crashed (fst (sched_run (mkConfig 0 100000 0 (fun _ => true)) w_now true
+                            (init_g (init_state [1%Z]) [[SetBrokerOffset 1 1 0 1 50]] []) [0; 0]%nat)) = true.
+Proof. exact crash_at_zero_intervals. Qed.
 
 (* before commit 54faa50 it was false: deleteTopic / commit / re-creation with fewer partitions / fetch (F6(iii));
    the witness is replayed on the real code by corpus/C08/cases.txt *)
@@ -111,7 +147,18 @@ Theorem conc_crash_refuted :
 Proof. split; [exact w_queues_wf | exact crash_before_fix]. Qed.
 Print Assumptions conc_crash_refuted.
 
-(* deadlock freedom of the model at lock granularity: while work remains some worker is enabled *)
+(* deadlock freedom of the MODEL at lock granularity: while work remains some worker is enabled.
+   What this proves, honestly: it holds for every gstate, reachable or not, and for a structural reason - in StorageConc a
+   parked handler holds at most the consumer-list lock and then waits for a group lock, which no parked handler holds
+   (releases happen inside steps; nothing is ever requested while a group or broker lock is held).  It is therefore a
+   statement about the SHAPE the model gives the handlers, and it is only as good as that shape is the code's.  What ties
+   the shape to the code: (i) lock_order_table_ok + lock_order_progress over the acquisition table regenerated from
+   inmemory.go (no lock is requested while holding one of the same or a higher class: no cycle of waiters, also under Go's
+   writer preference); (ii) the scheduler probe, which compares every step's acquired lock with [wants], reports a
+   request whose lock is held by a parked worker as `blocked` exactly where [others_stop] does, and reports DEADLOCK when
+   work remains and nothing is enabled; (iii) the translator's CBlocking rows: a channel send / receive / range while a
+   storage lock is held (e.g. a reply sent under a lock to a requester that has gone away) fails race_free - on HEAD all
+   six `request.Reply <- x` come after the unlocks (no such row; lockset_reply_alias_free's third clause). *)
 Theorem conc_deadlock_free :
   forall gs : gstate, unfinished gs = true -> exists i, enabled gs i = true.
 Proof. exact conc_deadlock_free_proof. Qed.
@@ -130,11 +177,12 @@ Print Assumptions conc_deadlock_free.
      (4) a request whose steps are not interrupted is exactly Storage.step (run_alone_refines, below). *)
 Theorem conc_group_one_worker_partial :
   forall cf now st queues prios sched,
+    (1 <= cf_intervals cf)%nat ->
     wf_queues queues ->
     let gs := fst (sched_run cf now true (init_g st queues prios) sched) in
     forall i j wi wj c g, nth_error (g_ws gs) i = Some wi -> nth_error (g_ws gs) j = Some wj ->
       concerns wi c g -> concerns wj c g -> i = j.
-Proof. exact conc_group_one_worker_proof. Qed.
+Proof. intros cf now st queues prios sched HN. exact (conc_group_one_worker_proof cf now HN st queues prios sched). Qed.
 Print Assumptions conc_group_one_worker_partial.
 
 Theorem conc_group_fifo_partial :
@@ -158,6 +206,40 @@ Theorem conc_group_frame_partial :
 Proof. exact sched_step_frame. Qed.
 Print Assumptions conc_group_frame_partial.
 
+(* FINAL STATE (the strongest true statement found).  Full linearisability is false only through deleteTopic
+   (conc_group_linearisable_refuted below).  When no deleteTopic of cluster c is among the requests, then for every group
+   (c, g), after ANY schedule of ANY number of workers: the cluster's broker map and - whenever the group's worker is not
+   in the middle of one of its requests, in particular at the end - the group's state are exactly what the SEQUENTIAL model
+   produces on one history [lin] that consists of the cluster's broker updates and the group's own requests, with the own
+   requests in SUBMISSION ORDER: filter own lin ++ (the request in flight before its linearisation point) ++ (those still
+   queued) = the own requests of the queue the group's worker was given.  So at the end (nothing in flight, nothing
+   queued) the own requests of lin are exactly the submitted ones, in order.
+   Gap to the full statement (hence _partial): deleteTopic of the same cluster must be absent (with it the statement is
+   false); lin linearises ONE group against the broker updates, one lin per group (the per-group lins use the same
+   execution order of the broker updates; they are not merged into one global history, and fetch replies are not part of
+   the claim - those are the conc_reply theorems). *)
+Theorem conc_group_final_state_partial :
+  forall cf now c g (i0 : nat) st0 q0 queues prios sched cl0,
+    (1 <= cf_intervals cf)%nat ->
+    wf_queues queues ->
+    get st0 c = Some cl0 ->                                  (* the cluster is configured *)
+    nth_error queues i0 = Some q0 ->                          (* the queue of the group's worker *)
+    (forall i q r, nth_error queues i = Some q -> In r q -> is_own c g r = true -> i = i0) ->
+    (forall q r, In q queues -> In r q -> is_dt c r = false) ->   (* no deleteTopic of this cluster *)
+    let gs := fst (sched_run cf now true (init_g st0 queues prios) sched) in
+    exists lin seq reps,
+      Storage.run cf st0 (map (fun r => (now, r)) lin) = Some (seq, reps) /\
+      Forall (fun r => is_own c g r = true \/ is_b c r = true) lin /\
+      bro c (g_st gs) = bro c seq /\
+      (forall w, nth_error (g_ws gs) i0 = Some w ->
+         filter (is_own c g) q0 = filter (is_own c g) lin ++ filter (is_own c g) (pend w) ++ filter (is_own c g) (w_queue w)) /\
+      ((forall w k, nth_error (g_ws gs) i0 = Some w -> w_run w = Some k -> cont_group k <> Some (c, g)) ->
+       grp c g (g_st gs) = grp c g seq).
+Proof.
+  intros cf now c g i0 st0 q0 queues prios sched cl0 HN. exact (group_final_state cf now c g HN i0 st0 q0 queues prios sched cl0).
+Qed.
+Print Assumptions conc_group_final_state_partial.
+
 (* the check-then-act gap of addConsumerOffset: it reads the partition count under the broker lock and creates the
    group's topic entry later under the group lock; a whole deleteTopic in between is undone for that group.  The final
    state is reached by no sequential order of the two requests (corpus/C08 case 3 replays it on the real code). *)
@@ -175,6 +257,7 @@ Print Assumptions conc_group_linearisable_refuted.
    compared as sets.  (wf_state: group maps have no duplicate keys, preserved by every Storage operation.) *)
 Theorem run_alone_refines :
   forall cf now prio st r,
+    (1 <= cf_intervals cf)%nat ->
     wf_state st ->
     exists fuel0, forall fuel, (fuel0 <= fuel)%nat ->
       match Storage.step cf now st r with
@@ -203,6 +286,13 @@ Proof. exact snapshot_instant. Qed.
 Print Assumptions conc_reply_snapshot_instant.
 
 (* ... and the broker half only adds broker offsets and the lag: offsets, owner and client id are the snapshot's *)
+(* "Later updates never alter a delivered reply" has NO content in this model: replies are immutable Coq values (w_out only
+   grows, conc_group_fifo_partial).  On the implementation the clause is carried by (i) the translator: every store of a
+   reference reachable from shared storage into an object the handler allocated, into a reply-typed literal, a channel send
+   or foreign code is a CEscape row, and the per-run obligation lockset_reply_alias_free below says the table has none
+   except copies of *protocol.Lag pointers, whose targets no handler writes once they are reachable from storage; (ii) the
+   probe's alias re-read (every ring slot overwritten after the case, delivered reply objects re-formatted), which caught
+   both seeded aliasing changes. *)
 Theorem conc_reply_keeps_snapshot :
   forall broker snap,
     map (fun tc => (fst tc, map strip (snd tc))) (fetch_topics_lags_g broker snap) =
@@ -234,6 +324,31 @@ Example sched_run_nontrivial :
   unfinished (fst r) = false /\ length (snd r) = 14%nat /\
   map (fun w => length (w_out w)) (g_ws (fst r)) = [0; 1; 0]%nat.
 Proof. vm_compute. repeat split; reflexivity. Qed.
+
+(* the hypotheses of conc_group_final_state_partial are satisfiable: group (1,1) with a commit, an owner update and a fetch
+   on worker 0, broker updates and another group's commit on worker 1, no deleteTopic *)
+Example final_state_hyps_inhabited :
+  let queues := [[SetConsumerOffset 1 1 1 0 5 1 (w_now * 1000); SetConsumerOwner 1 1 1 0 7 8; FetchConsumer 1 1];
+                 [SetBrokerOffset 1 1 0 1 50; SetConsumerOffset 1 2 1 0 6 2 (w_now * 1000); SetBrokerOffset 1 1 0 1 60]] in
+  wf_queues queues /\
+  (forall i q r, nth_error queues i = Some q -> In r q -> is_own 1 1 r = true -> i = 0%nat) /\
+  (forall q r, In q queues -> In r q -> is_dt 1 r = false) /\
+  filter (is_own 1 1) (nth 0 queues []) = nth 0 queues [].
+Proof.
+  cbn zeta. split; [|split; [|split; [|reflexivity]]].
+  - split.
+    + intros i j qi qj ri rj c g Hi Hj Hri Hrj Gi Gj.
+      destruct i as [|[|i]]; cbn in Hi; try (destruct i; discriminate); inversion Hi; subst qi;
+        cbn in Hri; repeat (destruct Hri as [<-|Hri]); try destruct Hri; cbn in Gi; try discriminate;
+        destruct j as [|[|j]]; cbn in Hj; try (destruct j; discriminate); inversion Hj; subst qj;
+        cbn in Hrj; repeat (destruct Hrj as [<-|Hrj]); try destruct Hrj; cbn in Gj; try discriminate; try reflexivity; congruence.
+    + intros q r Hq Hr. cbn in Hq. repeat (destruct Hq as [<-|Hq]); try destruct Hq;
+        cbn in Hr; repeat (destruct Hr as [<-|Hr]); try destruct Hr; cbn; try exact I; Lia.lia.
+  - intros i q r Hi Hr O. destruct i as [|[|i]]; cbn in Hi; try (destruct i; discriminate); inversion Hi; subst q; [reflexivity|].
+    cbn in Hr. repeat (destruct Hr as [<-|Hr]); try destruct Hr; cbn in O; discriminate.
+  - intros q r Hq Hr. cbn in Hq. repeat (destruct Hq as [<-|Hq]); try destruct Hq;
+      cbn in Hr; repeat (destruct Hr as [<-|Hr]); try destruct Hr; reflexivity.
+Qed.
 
 Example wf_state_init : forall clusters, wf_state (init_state clusters).
 Proof.
